@@ -418,3 +418,88 @@ class Rig:
         tbl = getattr(N, '_Node__peers', None)
         if isinstance(tbl, dict):
             tbl.clear()
+
+
+# ====================================================================================== atheris campaign (thorough tier)
+def spec_from_bytes(data):
+    """Fuzzer bytes -> C19 spec: byte 0 picks the victim and the place of the hostile bytes, byte 1 the read size,
+    the rest is the hostile peer's raw stream (it may contain delimiters, i.e. several packets). One genuine
+    remote call runs next to it, and the interpreter adds the benign follow-up on the hostile connection."""
+    b0 = data[0] if len(data) > 0 else 0
+    b1 = data[1] if len(data) > 1 else 0
+    raw = bytes(data[2:]).decode('latin-1')
+    size = [4096, 1, 2, 3, 5, 7, 16, 64][b1 % 8]
+    ev = {'src': 'A0', 'to': 0, 'how': 'client', 'name': 'ping', 'args': ['x'], 'kwargs': {'k': 1}, 'channels': ['c0'],
+          'flags': [False, False, False], 'meta': {}, 'kind': 'plain', 'slow': 1, 'tamper_call': {}, 'tamper_value': {}}
+    return {'clients': 1, 'fw': {}, 'cuts': {'sizes': [size], 'burst': 0},
+            'waves': [{'sends': [ev], 'forged': [{'victim': 'A0' if b0 & 1 else 'B', 'when': 'after' if b0 & 2 else 'before', 'raw': raw}]}]}
+
+
+def seed_corpus():
+    call = {'id': -1, 'name': 'ping', 'args': [-1, 'x'], 'kwargs': {'k': 1}, 'success': True, 'failure': False, 'notify': False,
+            'channels': ['c0'], 'meta': {'x_meta': 1}}
+    value = {'id': -1, 'errors': False, 'value': {'r': 1}, 'meta': {'x_meta': 1}}
+    out = []
+    for b0 in (0, 1):
+        for pkt in (call, value, dict(call, meta={'cause': 1}), dict(call, channels=[['c0']]), dict(value, id=[1])):
+            text = json.dumps(pkt).encode()
+            out.append(bytes([b0, 0]) + text)
+            out.append(bytes([b0, 3]) + text[:len(text) // 2])
+            out.append(bytes([b0, 0]) + text + DELIM + text)
+    return out
+
+
+def main(argv):
+    """python -m vlib.c19_helpers --out DIR [--corpus DIR] -runs=N -seed=S
+    exit 0: campaign clean; exit 1: violation (DIR/C19-fuzz.json holds the spec)."""
+    import argparse
+    import os
+    import sys
+    ap = argparse.ArgumentParser()
+    ap.add_argument('--out', required=True)
+    ap.add_argument('--corpus')
+    a, rest = ap.parse_known_args(argv)
+    os.makedirs(a.out, exist_ok=True)
+    work = os.path.join(a.out, 'corpus')
+    os.makedirs(work, exist_ok=True)
+    n = 0
+    if a.corpus and os.path.isdir(a.corpus):
+        for name in sorted(os.listdir(a.corpus)):
+            with open(os.path.join(a.corpus, name), 'rb') as f, open(os.path.join(work, 'seed-%03d' % n), 'wb') as g:
+                g.write(f.read())
+            n += 1
+    if not n:
+        for s in seed_corpus():
+            with open(os.path.join(work, 'seed-%03d' % n), 'wb') as g:
+                g.write(s)
+            n += 1
+
+    import atheris
+    # this file (run as __main__) already imported circuits.node: import the package again, instrumented; props.c19
+    # and its own copy of this module (vlib.c19_helpers) are imported afterwards and bind to the instrumented one
+    for m in [m for m in sys.modules if m == 'circuits.node' or m.startswith('circuits.node.')]:
+        del sys.modules[m]
+    with atheris.instrument_imports(include=['circuits.node.protocol', 'circuits.node.utils']):
+        import circuits.node  # noqa
+    from props import c19
+    prop = c19.PROP
+    prop.setup()
+
+    def target(data):
+        spec = spec_from_bytes(data)
+        res = prop.execute(spec)
+        if not res.ok:
+            with open(os.path.join(a.out, 'C19-fuzz.json'), 'w') as f:
+                json.dump({'property': 'C19', 'clause': res.clause, 'message': res.msg, 'spec': spec}, f)
+            sys.stderr.write('C19-FUZZ-VIOLATION %s :: %s\n' % (res.clause, res.msg))
+            sys.stderr.flush()
+            os._exit(1)
+
+    args = [sys.argv[0], work, '-artifact_prefix=' + a.out + '/', '-max_len=400', '-print_final_stats=1'] + rest
+    atheris.Setup(args, target)
+    atheris.Fuzz()
+
+
+if __name__ == '__main__':
+    import sys
+    main(sys.argv[1:])
